@@ -2099,9 +2099,12 @@ package ucfg
 
 // reifyGetField: a field for which the configuration has no setting keeps its value (pointer fields and
 // non-struct fields without InitDefaults): the storage behind the field's handle is not written.
+// C14: a value that is not the one found in the configuration (the null made up for a missing setting of struct
+// type) is located at the field's name below cfg, so that errors raised for it name the setting
 //@ func reifyGetField :: cfg, opts, name, to, fieldType -> result
-//@ props C13 C07
+//@ props C13 C07 C14
 //@ sweep
+//@ at-call reifyMergeValue requires val != pathVal(pathFor(entry(name), entry(opts).opts), entry(cfg)) ==> typeof(val) == *cfgNil && val.(*cfgNil).cfgPrimitive.ctx.field == entry(name) && val.(*cfgNil).cfgPrimitive.ctx.parent == subval(entry(cfg))
 //@ requires cfg != nil && opts.opts != nil && rvCanSet(to)
 //@ rvwrites rvRootOf(to), pointeeStore()
 //@ ensures [absent_untouched] result == nil && old(absent(cfg, name, opts.opts)) && rvRootOf(to) != pointeeStore() && (rtKind(fieldType) == 22 || (rtKind(fieldType) != 25 && !hasInit(fieldType))) ==> rvver(rvRootOf(to)) == old(rvver(rvRootOf(to)))
